@@ -25,8 +25,20 @@ namespace {
 
 typedef std::vector<size_t> IPath;  // child indices (member index for objects: addresses duplicates precisely)
 
+// near-collision families: keys of one length that differ in a single byte at a position inside / between the vector blocks of
+// the key comparison kernels (lengths 13..15: overlapping head/tail words; 33, 66, 70, 97: block loop + overlapping tail)
+static std::string near_key(size_t len, size_t pos, char ch) {
+  std::string k(len, 'q');
+  for (size_t i = 0; i < len; i++) k[i] = (char)('a' + i % 23);
+  k[pos] = ch;
+  return k;
+}
 static const std::vector<std::string> kKeys = {"a", "b", "c", "d", "e", "key", "", "k1", "k2", "long-key-0123456789-0123456789-0123456789",
-                                                "a\"b", "x\\y", "\n", "id", "name", "z"};
+                                                "a\"b", "x\\y", "\n", "id", "name", "z",
+                                                near_key(13, 4, '1'), near_key(13, 4, '2'), near_key(14, 5, '1'), near_key(14, 5, '2'),
+                                                near_key(15, 6, '1'), near_key(15, 6, '2'), near_key(33, 32, '1'), near_key(33, 32, '2'),
+                                                near_key(66, 33, '1'), near_key(66, 33, '2'), near_key(70, 36, '1'), near_key(70, 36, '2'),
+                                                near_key(97, 64, '1'), near_key(97, 64, '2'), near_key(97, 70, '\xc3')};
 static const std::vector<std::string> kConstStrings = {"", "const", "const string with \"quotes\" and \\ backslash",
                                                         "0123456789abcdef0123456789abcdef0123456789abcdef0123456789abcdef!"};
 
